@@ -508,6 +508,56 @@ def shapes_stage():
     return stage(key, run)
 
 
+def _threshold_ok(thr, b, pn, pd):
+    """Python transcription of ThresholdOk (spec/Contract.tla): the facts C15 states about the threshold after a collection."""
+    k, pow2 = thr, False
+    if thr >= 100 and thr % 100 == 0:
+        q = thr // 100
+        pow2 = q & (q - 1) == 0
+    return pow2 and thr >= 100 and thr > b and (pn == 0 or b * pd > thr * pn or 2 * b >= thr or thr == 100)
+
+
+def policy_stage(tier, variant):
+    """C15, function part: TLC evaluates Config::adjust as specified (spec/PolicyDefs.tla) on a grid and checks the threshold facts
+    (PolicyHolds); the rows it writes are then replayed against the real Config::adjust / should_collect by the harness
+    (real boxes adding up to the exact byte counts)."""
+    key = ['policy', tier, variant]
+
+    def run(d):
+        rows = os.path.join(d, 'rows.json')
+        rc, out = tlc('Policy.tla', 'Policy_%s.cfg' % tier, d, workers=1, heap='4g', timeout=1800, env={'POLICY_ROWS': rows})
+        txt = open(out, errors='replace').read()
+        if 'No error has been found' not in txt:
+            raise ToolError('Policy.tla: the threshold policy violates its facts:\n' + txt[-3000:])
+        m = re.search(r'<<"GRID", (\d+)>>', txt)
+        n = int(m.group(1)) if m else 0
+        rep = run_harness(variant, ['policy', '--in', rows])
+        res = {'kind': 'policy', 'variant': variant, 'params': {'tier': tier}, 'harness': rep, 'violations': [], 'events': n, 'runs': 0, 'nontrivial': 0,
+               'states': 2, 'transitions': 2, 'grid_points_checked_by_tlc': n}
+        if rep.get('crash'):
+            res['crash'] = True
+            return res
+        r = rep['result']
+        res['runs'] = res['nontrivial'] = r['rows'] - r.get('skipped', 0)
+        res['harness'] = {'rows': r['rows'], 'skipped': r.get('skipped', 0), 'bad': len(r['bad']), 'drifted': 0}
+        res['sample'] = json.load(open(rows))['rows'][:3]
+        for b in r['bad']:
+            row = b.get('row') or [0, 0, 0, 1, 0]
+            hard = True
+            if 'got' in b and 'expected' in b and 'threshold after' in b.get('problem', '') and 'ramp' not in b.get('problem', ''):
+                # a threshold different from the specified function is only a violation if it breaks the stated facts
+                hard = not _threshold_ok(b['got'], row[1], row[2], row[3])
+            if hard:
+                res['violations'].append({'run': 0, 'prop': 'C15', 'msg': 'automatic collection policy: %s' % json.dumps(b), 'n': 0, 'faulted': False, 'resur': False,
+                                          'behaviour': [b], 'signature': 'policy-grid', 'variant': variant, 'source': 'policy'})
+            else:
+                res['harness']['drifted'] += 1
+        os.unlink(rows)
+        return res
+
+    return stage(key, run)
+
+
 def ptr_stage(variant):
     """C20 table part: TLC enumerates the expected comparison results (spec/PtrSpec.tla, whose laws it checks),
     the harness evaluates them on Cc<T> and on plain T."""
@@ -730,6 +780,9 @@ def run_check(pid, tier, seed):
         if k == 'shapes':
             log('conformance shapes')
             return shapes_stage()
+        if k == 'policy':
+            log('policy grid', v)
+            return policy_stage(tier, v)
         log('conformance', k, v, {x: y for x, y in p.items() if x != 'file'} if k != 'script' else p)
         return conformance_stage(k, v, p)
     with cf.ThreadPoolExecutor(max_workers=3) as ex:
